@@ -331,6 +331,9 @@ CASES += [
     ("gradient spacing coords", "lambda anp, x: anp.gradient(x, " + _np + ".array([0.0, 0.5, 1.5, 2.0, 4.0]))", [((5,), "R")], (0,)),
     ("gradient edge_order", "lambda anp, x: anp.gradient(x, edge_order=2)", [((5,), "R")], (0,)),
     ("gradient axis tuple", "lambda anp, x: anp.gradient(x, axis=(0, 1))[1]", [((3, 4), "R")], (0,)),
+    ("gradient axis tuple (4,5)", "lambda anp, x: anp.gradient(x, axis=(1, 0))[0] + anp.gradient(x, axis=(0, 1))[0]", [((4, 5), "R")], (0,)),
+    ("gradient axis list (5,4)", "lambda anp, x: anp.gradient(x, axis=[0])[0] * 2.0", [((5, 4), "R")], (0,)),
+    ("gradient axis=-1 (2,5)", "lambda anp, x: anp.gradient(x, axis=-1)", [((2, 5), "R")], (0,)),
     ("linspace retstep", "lambda anp, x, y: anp.linspace(x, y, 5, retstep=True)[0]", [((), "R"), ((), "R")], (0, 1)),
     ("linspace endpoint=False", "lambda anp, x, y: anp.linspace(x, y, 4, endpoint=False)", [((), "R"), ((), "R")], (0, 1)),
     ("linspace array axis", "lambda anp, x, y: anp.linspace(x, y, 3, axis=1)", [((2,), "R"), ((2,), "R")], (0, 1)),
@@ -341,6 +344,11 @@ CASES += [
     ("sort stable", "lambda anp, x: anp.sort(x, kind='stable')", [((5,), "P")], (0,)),
     ("sort axis=None", "lambda anp, x: anp.sort(x, axis=None)", [((2, 3), "P")], (0,)),
     ("sort axis=0", "lambda anp, x: anp.sort(x, axis=0)", [((3, 2), "P")], (0,)),
+    ("sort axis=0 wide", "lambda anp, x: anp.sort(x, axis=0)", [((2, 3), "P")], (0,)),
+    ("sort axis=0 square", "lambda anp, x: anp.sort(x, axis=0)", [((3, 3), "P")], (0,)),
+    ("sort axis=1 cube", "lambda anp, x: anp.sort(x, axis=1)", [((2, 2, 2), "P")], (0,)),
+    ("partition axis=0 wide", "lambda anp, x: anp.partition(x, 1, axis=0)", [((2, 3), "P")], (0,)),
+    ("partition axis=-2 square", "lambda anp, x: anp.partition(x, 1, axis=-2)", [((3, 3), "P")], (0,)),
     ("msort-like method", "lambda anp, x: anp.sort(x)[::-1]", [((4,), "P")], (0,)),
     ("prod initial", "lambda anp, x: anp.prod(x, initial=2.0)", [((3,), "P")], (0,)),
     ("sum initial", "lambda anp, x: anp.sum(x, axis=0, initial=1.5)", [((2, 3), "R")], (0,)),
@@ -447,6 +455,8 @@ CASES += [
     ("diagonal (2,3) axes (-1,-2)", "lambda anp, x: anp.diagonal(x, axis1=-1, axis2=-2)", [((2, 3), "R")], (0,)),
     ("diagonal (3,2) axes (-1,-2)", "lambda anp, x: anp.diagonal(x, axis1=-1, axis2=-2) ** 2", [((3, 2), "R")], (0,)),
     ("diagonal (2,2,3) axes (-1,-2)", "lambda anp, x: anp.diagonal(x, axis1=-1, axis2=-2)", [((2, 2, 3), "R")], (0,)),
+    ("diagonal offset=1 axes (-1,-2)", "lambda anp, x: anp.diagonal(x, offset=1, axis1=-1, axis2=-2)", [((3, 3), "R")], (0,)),
+    ("diagonal offset=-1 axes (-1,-2) 3-D", "lambda anp, x: anp.diagonal(x, offset=-1, axis1=-1, axis2=-2)", [((2, 3, 3), "R")], (0,)),
     ("diagonal (3,3) axes (-1,-2)", "lambda anp, x: anp.diagonal(x, axis1=-1, axis2=-2)", [((3, 3), "R")], (0,)),
     # tuple axes with NEGATIVE entries, on shapes whose leading sizes coincide (a mis-placed expand_dims then broadcasts silently instead of failing)
     ("max axis=(-2,-1) (2,2,3)", "lambda anp, x: anp.max(x, axis=(-2, -1))", [((2, 2, 3), "P")], (0,)),
@@ -774,6 +784,12 @@ def run(rep, tier, clauses=("N-vjp", "N-jvp", "N-value"), only_complex=False):
             results += [[(f"{l}@pt{sh}" if sh else l, c_, o, d) for l, c_, o, d in r] for r in pool.map(run_one, cases)]
     _SHIFT[0] = 0
     rep.extra["numeric_points_per_configuration"] = len(shifts)
+    if tier == "thorough":
+        # every configuration once more with ALL sizes > 1 set to 3: an axis mix-up inside a rule fails loudly on distinct sizes and silently on equal ones
+        cubes = [(l + "@cube3", src, [(tuple(3 if d > 1 else d for d in shp), k) for shp, k in spec], an) for l, src, spec, an in cases if any(any(d > 1 and d != 3 for d in shp) for shp, _ in spec)]
+        with mp.get_context("fork").Pool(8) as pool:
+            results += [[r_ for r_ in r if r_[1] != "N-error"] for r in pool.map(run_one, cubes)]     # NumPy itself rejecting the changed shape is not a finding
+        rep.extra["numeric_cube_configurations"] = len(cubes)
     for res in results:
         for label, cl, ok, detail in res:
             if cl.endswith("-raises"):
@@ -905,6 +921,118 @@ def run_astype(rep):
             continue
         if not ok:
             rep.violation("NUM:N-astype", lab, f"astype {lab}: {det}", replay=dict(module="contracts.rules_numeric", astype=lab), witness=True)
+
+
+def run_space_special(rep):
+    """N-space-special: functions whose OUTPUT KIND depends on the values (real_if_close of a complex array with zero imaginary parts gives a real array) or that are
+    not differentiable where the kind changes: finite differences are meaningless there, but the tangent must still be an element of the output's space and
+    the gradient one of the argument's space, and the two modes must be adjoint (<g, J t> == Re sum(vjp(g) * t): autograd's gradient of a real output is du/dx - i du/dy)."""
+    warnings.simplefilter("ignore")
+    import autograd.numpy as anp
+    from autograd.core import make_jvp, make_vjp
+    z0 = onp.array([0.5, -1.25, 2.0]) + 0j            # complex dtype, imaginary parts exactly zero
+    tz = onp.array([1.0 + 2.0j, -0.5 + 0.25j, 0.75 - 1.0j])
+    cases = [("real_if_close(zero imaginary part)", lambda v: anp.real_if_close(v), z0, tz),
+             ("real_if_close(...) * 2 + 1", lambda v: anp.real_if_close(v * 2.0) + 1.0, z0, tz),
+             ("real(z)", lambda v: anp.real(v), z0 + 0.5j, tz), ("imag(z)", lambda v: anp.imag(v), z0 + 0.5j, tz), ("abs(z)", lambda v: anp.abs(v), z0 + 0.5j, tz),
+             ("angle(z)", lambda v: anp.angle(v), z0 + 0.5j, tz), ("real_if_close(non-negligible)", lambda v: anp.real_if_close(v), z0 + 0.5j, tz)]
+    for lab, f, x, t in cases:
+        rep.bounded_case((lab, "N-space-special"))
+        try:
+            y = onp.asarray(f(x))
+            val, tan = make_jvp(f, x)(t)
+            tan = onp.asarray(tan)
+            g = (onp.array([1.0, -2.0, 0.5]) + (1j * onp.array([0.5, 1.0, -1.5]) if onp.iscomplexobj(y) else 0.0))
+            got = onp.asarray(make_vjp(f, x)[0](g))
+            ok_sp = tan.shape == y.shape and bool(onp.iscomplexobj(tan)) == bool(onp.iscomplexobj(y)) and got.shape == x.shape and bool(onp.iscomplexobj(got)) == bool(onp.iscomplexobj(x))
+            det = f"output {y.dtype}, tangent {tan.dtype} {tan.shape}; argument {x.dtype}, gradient {got.dtype} {got.shape}"
+            if ok_sp and not onp.iscomplexobj(y):
+                lhs, rhs = float(onp.sum(g * tan)), float(onp.real(onp.sum(got * t)))     # autograd's convention for a real output: grad = du/dx - i du/dy, so du = Re(grad * dz)
+                ok_sp = abs(lhs - rhs) <= 1e-9 * (1 + abs(lhs))
+                det += f"; <g, jvp(t)> = {lhs!r}, Re<vjp(g) * t> = {rhs!r}"
+        except Exception as e:
+            rep.note(f"N-space-special {lab}: raised {type(e).__name__}: {str(e)[:60]}")
+            continue
+        if not ok_sp:
+            rep.violation("NUM:N-space-special", lab, f"{lab}: {det}", replay=dict(module="contracts.rules_numeric", space_special=lab), witness=True)
+
+
+def run_args_unmodified(rep):
+    """N-args-unmodified (C10 / C06): option arguments a user keeps in variables - lists, tuples, index arrays, axis lists, shapes, widths, bounds - are exactly what
+    they were after the forward evaluation, after the backward pass, after a second backward pass and after a forward-mode call; and a second call with ANOTHER input
+    through the same objects gives the answer a fresh call gives."""
+    import copy
+    warnings.simplefilter("ignore")
+    import autograd.numpy as anp
+    from autograd.core import make_jvp, make_vjp
+    x1, x2, x3 = onp.arange(1.0, 6.0) * 0.5, onp.arange(1.0, 7.0).reshape(2, 3) * 0.25, onp.arange(1.0, 25.0).reshape(2, 3, 4) * 0.125
+    T = [
+        ("tile list reps shorter than ndim", lambda o: (lambda v: anp.tile(v, o["reps"])), x2, dict(reps=[2])),
+        ("tile tuple-in-list reps", lambda o: (lambda v: anp.tile(v, o["reps"])), x3, dict(reps=[2, 1])),
+        ("repeat array repeats", lambda o: (lambda v: anp.repeat(v, o["r"], axis=0)), x2, dict(r=2)),
+        ("getitem int array with negatives", lambda o: (lambda v: v[o["idx"]]), x1, dict(idx=onp.array([1, -1, -4, 1]))),
+        ("getitem list with negatives", lambda o: (lambda v: v[o["idx"]]), x1, dict(idx=[0, -2, -2])),
+        ("getitem tuple of list and slice", lambda o: (lambda v: v[o["idx"]]), x2, dict(idx=([1, -1, 0], slice(None)))),
+        ("getitem bool mask", lambda o: (lambda v: v[o["m"]]), x1, dict(m=onp.array([True, False, True, True, False]))),
+        ("transpose axes list", lambda o: (lambda v: anp.transpose(v, o["ax"])), x3, dict(ax=[2, 0, -2])),
+        ("reshape shape list", lambda o: (lambda v: anp.reshape(v, o["s"])), x3, dict(s=[4, -1])),
+        ("pad width lists", lambda o: (lambda v: anp.pad(v, o["w"], mode="constant")), x2, dict(w=[[1, 0], [0, 2]])),
+        ("roll shift / axis lists", lambda o: (lambda v: anp.roll(v, o["sh"], axis=o["ax"])), x3, dict(sh=[1, -2], ax=[0, -1])),
+        ("moveaxis lists", lambda o: (lambda v: anp.moveaxis(v, o["a"], o["b"])), x3, dict(a=[0, -1], b=[-1, 0])),
+        ("sum axis list->tuple", lambda o: (lambda v: anp.sum(v, axis=tuple(o["ax"]))), x3, dict(ax=[-1, 0])),
+        ("clip array bounds", lambda o: (lambda v: anp.clip(v, o["lo"], o["hi"])), x1, dict(lo=onp.array([0.6, 0.0, 2.0, 0.0, 1.0]), hi=onp.full(5, 2.2))),
+        ("where condition and constant", lambda o: (lambda v: anp.where(o["c"], v, o["k"])), x1, dict(c=onp.array([True, False, True, False, True]), k=onp.full(5, 9.0))),
+        ("concatenate list object", lambda o: (lambda v: anp.concatenate(o["L"] + [v])), x1, dict(L=[onp.ones(2), onp.zeros(1)])),
+        ("einsum constant operand", lambda o: (lambda v: anp.einsum("ij,jk->ik", v, o["B"])), x2, dict(B=onp.arange(6.0).reshape(3, 2))),
+        ("tensordot axes lists", lambda o: (lambda v: anp.tensordot(v, o["B"], axes=o["ax"])), x3, dict(B=onp.arange(12.0).reshape(4, 3), ax=[[1, 2], [1, 0]])),
+        ("split indices list", lambda o: (lambda v: anp.concatenate(anp.split(v, o["i"])[::-1])), x1, dict(i=[1, 3])),
+        ("linalg.norm axis tuple", lambda o: (lambda v: anp.linalg.norm(v, axis=o["ax"])), x3, dict(ax=(-1, 0))),
+        ("fft n and axis", lambda o: (lambda v: anp.real(anp.fft.fft(v, *o["a"]))), x2, dict(a=[4, 0])),
+        ("fftn s / axes lists", lambda o: (lambda v: anp.real(anp.fft.fftn(v, s=o["s"], axes=o["ax"]))), x3, dict(s=[2, 4], ax=[0, -1])),
+        ("diff prepend constant", lambda o: (lambda v: anp.diff(v, axis=0)), x2, dict()),
+    ]
+    import autograd.numpy.fft  # noqa
+    import autograd.numpy.linalg  # noqa
+
+    def same(a, b):
+        if isinstance(a, dict):
+            return isinstance(b, dict) and list(a) == list(b) and all(same(a[k_], b[k_]) for k_ in a)
+        if isinstance(a, onp.ndarray) or isinstance(b, onp.ndarray):
+            return isinstance(a, onp.ndarray) and isinstance(b, onp.ndarray) and a.dtype == b.dtype and a.shape == b.shape and bool(onp.all(a == b))
+        if isinstance(a, (list, tuple)):
+            return type(a) is type(b) and len(a) == len(b) and all(same(u, v) for u, v in zip(a, b))
+        return type(a) is type(b) and a == b
+    for lab, mk, x, opts in T:
+        rep.bounded_case((lab, "N-args-unmodified"))
+        ref = copy.deepcopy(opts)
+        x_before = x.copy()
+        try:
+            f = mk(opts)
+            stages = []
+            vjp, val = make_vjp(f, x)
+            stages.append(("forward evaluation", same(opts, ref)))
+            g = onp.cos(onp.arange(onp.asarray(val).size) * 0.7).reshape(onp.shape(val))
+            r1 = onp.asarray(vjp(g))
+            stages.append(("backward pass", same(opts, ref)))
+            r2 = onp.asarray(vjp(g * 1.0))
+            stages.append(("second backward pass", same(opts, ref) and onp.array_equal(r1, r2)))
+            try:
+                make_jvp(f, x)(onp.ones_like(x))
+                stages.append(("forward-mode call", same(opts, ref)))
+            except NotImplementedError:
+                pass
+            # a later call through the SAME option objects equals a call through fresh copies
+            xx = x * 1.5 + 0.25
+            again = onp.asarray(make_vjp(f, xx)[0](g))
+            fresh = onp.asarray(make_vjp(mk(copy.deepcopy(ref)), xx)[0](g))
+            stages.append(("later call equals a fresh one", again.shape == fresh.shape and onp.array_equal(again, fresh)))
+            stages.append(("input array unchanged", onp.array_equal(x, x_before)))
+            bad = [nm for nm, ok in stages if not ok]
+        except Exception as e:
+            rep.note(f"N-args-unmodified {lab}: raised {type(e).__name__}: {str(e)[:60]}")
+            continue
+        if bad:
+            rep.violation("NUM:N-args-unmodified", lab, f"{lab}: option objects {ref!r} -> {opts!r}; failed after: {bad}", replay=dict(module="contracts.rules_numeric", args_unmodified=lab), witness=True)
 
 
 def run_accum(rep):
@@ -1040,6 +1168,14 @@ def run_near_tie(rep):
 
 
 def replay(spec):
+    for key, fn in (("space_special", run_space_special), ("args_unmodified", run_args_unmodified)):
+        if key in spec:
+            from vlib.common import Report
+            r = Report("replay", "quick", "other", "replay")
+            r.known = {"findings": []}
+            fn(r)
+            bad = [v for v in r.violations if v["case"] == spec[key]]
+            return (not bad), (bad[0]["what"] if bad else "holds"), "the option objects / spaces before the call"
     if "near_tie" in spec:
         from vlib.common import Report
         r = Report("replay", "quick", "other", "replay")
@@ -1068,6 +1204,12 @@ def replay(spec):
         run_scale(r)
         bad = [v for v in r.violations if v["case"].startswith(spec["scale_label"])]
         return (not bad), (bad[0]["what"] if bad else "holds"), "scale invariance of the gradient of a norm"
+    if spec.get("label", "").endswith("@cube3"):
+        for c in CASES:
+            if c[0] + "@cube3" == spec["label"]:
+                c2 = (spec["label"], c[1], [(tuple(3 if d > 1 else d for d in shp), k) for shp, k in c[2]], c[3])
+                bad = [(l, cl, d) for l, cl, ok, d in run_one(c2) if not ok and cl != "N-error"]
+                return (not bad), (str(bad) if bad else "holds"), "conj(J_R^T conj g) from central differences on NumPy"
     for c in CASES:
         if c[0] == spec["label"]:
             _SHIFT[0] = int(spec.get("shift", 0))
